@@ -158,10 +158,14 @@ def audit_axioms(theorems, imports):
 # evidence / reporting
 # ---------------------------------------------------------------------------------------------
 def write_evidence(pid, tier, level, coverage, assumptions, wall, violations=0):
-    os.makedirs(os.path.join(VERIF, "evidence"), exist_ok=True)
+    evdir = os.path.join(VERIF, "evidence")
+    if os.path.realpath(REPO) != "/repo":
+        # a run against another checkout (seeded change): never overwrite the evidence of /repo
+        evdir = os.path.join(VERIF, "replays", "evidence_other_checkout")
+    os.makedirs(evdir, exist_ok=True)
     ev = {"property_id": pid, "tier": tier, "seed": SEED, "level": level, "coverage": coverage,
           "assumptions": assumptions, "wall_s": round(wall, 2), "violations": violations}
-    path = os.path.join(VERIF, "evidence", f"{pid}.json")
+    path = os.path.join(evdir, f"{pid}.json")
     tmp = path + ".tmp"
     json.dump(ev, open(tmp, "w"), indent=1, default=str)
     os.replace(tmp, path)
